@@ -147,17 +147,15 @@ theorem backrefGen_sound (ctx : Ctx) (g : Nat) :
         intro hp
         simp only [OpR]
         omega
-      · split
+      · simp only
+        split
         · exact .nil _
-        · simp only
-          split
+        · split
+          · apply Step.All.once
+            intro hp
+            simp only [OpR]
+            omega
           · exact .nil _
-          · split
-            · apply Step.All.once
-              intro hp
-              simp only [OpR]
-              omega
-            · exact .nil _
     · apply Step.All.once
       intro hp
       simp only [OpR]
